@@ -619,7 +619,7 @@ func nodeInfo(l *profile.Location, line profile.Line, objfile string, o *Options
 	if o.OrigFnNames {
 		ni.OrigName = line.Function.SystemName
 	}
-	if o.ObjNames || (ni.Name == "" && ni.OrigName == "") {
+	if o.ObjNames || (ni.Name == "" && ni.OrigName == "" && ni.File == "") {
 		ni.Objfile = objfile
 		ni.StartLine = int(line.Function.StartLine)
 	}
